@@ -51,6 +51,7 @@ T_DAGGER = "Invalid expression in dagger"
 T_UNSUPPORTED = "Unsupported"
 
 HEADER = (
+    "from collections.abc import Callable\n"
     "from guppylang import guppy, qubit, array\n"
     "from guppylang.std.builtins import barrier, nat\n"
     "from guppylang.std.debug import state_result\n"
@@ -182,6 +183,24 @@ def build(item):
         else:
             body = ['state_result("t", q)']
         passes_qubit = "q" in item["mix"]
+    elif fam == "indirect":
+        # the same quantum call made through a function VALUE or a function TENSOR
+        G = set(item["g"])
+        mech = item["mech"]
+        if mech == "param-value":
+            G = set()                                   # a Callable parameter declares no flags
+            params = MAIN_PARAMS + ", fp: Callable[[qubit], None]"
+            body = ["fp(q)"]
+        elif mech == "tensor":
+            pre += callee_src("def", item["g"], "q", "stmt")
+            params = MAIN_PARAMS + ", q2: qubit"
+            body = ["(callee, callee)(q, q2)"]
+        else:
+            assert mech == "local-value"
+            pre += callee_src("def", item["g"], "q", "stmt")
+            body = ["fv = callee", "fv(q)"]
+            construct = "assign"
+        passes_qubit = True
     else:
         assert fam == "construct"
         construct = item["construct"]
@@ -207,6 +226,7 @@ def build(item):
     reason2 = "dagger" in F and construct is not None
     boundary = (fam == "user" and position == "ifexp" and "dagger" in F and not reason1)
     return src, {"reason1": reason1, "reason2": reason2, "boundary": boundary,
+                 "soundness_only": fam == "indirect" and item["mech"] != "param-value",
                  "F": sorted(F), "G": None if G is None else sorted(G),
                  "construct": construct, "position": position}
 
@@ -232,6 +252,10 @@ def all_items(quick=False):
         items.append({"fam": "special", "ctx": ctx, "callee": "state_result", "mix": "q"})
         for cons in CONSTRUCTS:
             items.append({"fam": "construct", "ctx": ctx, "construct": cons})
+        # (a function tensor takes its arguments by value, which `main`'s borrowed qubits do not allow: left out)
+        for mech in ("param-value", "local-value"):
+            for g in (gs if mech != "param-value" else [()]):
+                items.append({"fam": "indirect", "ctx": ctx, "g": list(g), "mech": mech})
     return items
 
 
@@ -349,6 +373,10 @@ def evaluate(item):
         if o.kind == "error":
             if facts["boundary"] and o.title == T_DAGGER:
                 rec["boundary"] = True
+            elif facts.get("soundness_only") and o.title in (T_UNITARY, T_DAGGER):
+                # the statement does not say which flags the type of a function value / tensor carries:
+                # rejecting an allowed indirect call is tolerated (counted), accepting a forbidden one is not
+                rec["boundary"] = True
             elif o.title in (T_UNITARY, T_DAGGER) or (o.title == T_UNSUPPORTED and "dagger context" in o.rendered):
                 slug = {T_UNITARY: "unitary-violation", T_DAGGER: "invalid-under-dagger",
                         T_UNSUPPORTED: "index-access-under-dagger"}[o.title]
@@ -379,6 +407,8 @@ def describe(item, facts):
                 f"args {item['mix']}, position {item['position']}")
     if item["fam"] == "special":
         return f"context {c}, {item['callee']}({item['mix']})"
+    if item["fam"] == "indirect":
+        return f"context {c}, indirect call ({item['mech']}) of a callee with G=[{','.join(item['g']) or '-'}]"
     return f"context {c}, construct {item['construct']}"
 
 
